@@ -538,6 +538,17 @@ func ProxyInheritDoc(k int) map[string]interface{} {
 		main["failureCodes"] = []interface{}{int64(200), int64(503)}
 		main["timeout"] = "1s"
 	}
+	// resilience policies (bound to default policies of the right kind by the harness / the Pipeline)
+	if (k/3)%3 == 0 {
+		main["retryPolicy"] = "r1"
+	}
+	if (k/7)%3 == 0 {
+		main["circuitBreakerPolicy"] = "cb1"
+	}
+	if (k/11)%4 == 0 {
+		cand["retryPolicy"] = "r1"
+		cand["timeout"] = "50ms"
+	}
 	doc := map[string]interface{}{"name": "f1", "kind": "Proxy", "pools": []interface{}{main, cand}}
 	if fv != nil {
 		doc["serverMaxBodySize"] = fv
@@ -559,5 +570,9 @@ func ProxyReqs() []Req {
 		{Method: "GET", Path: "/cache", Headers: [][2]string{{"Cache-Control", "no-cache"}, {"Accept-Encoding", "identity"}}},
 		{Method: "POST", Path: "/cache", Body: "hello"},
 		{Method: "GET", Path: "/503"}, {Method: "GET", Path: "/fail"}, {Method: "GET", Path: "/empty"},
+		// the client has gone away: before the request is handled / during the first attempt
+		{Method: "GET", Path: "/cache2", Cancel: 1}, {Method: "GET", Path: "/fail", Cancel: 1},
+		{Method: "GET", Path: "/x", Cancel: 2}, {Method: "POST", Path: "/x", Body: "hello", Cancel: 2},
+		{Method: "GET", Path: "/x", Headers: [][2]string{{"X-Test", "a"}}, Cancel: 2},
 	}
 }
